@@ -130,7 +130,7 @@ class BuiltUnit:
     pass
 
 
-def build_unit(unit_dir, out_path, mutate=None, neg_control=False):
+def build_unit(unit_dir, out_path, mutate=None, neg_control=False, bodies=None):
     """Generate the Verus file for a unit. `mutate` = optional function (fnpath, text) -> text applied
     to the *extracted slice in memory* (teeth); `neg_control` appends `ensures false` everywhere.
     Returns BuiltUnit with maps for diagnostics."""
@@ -178,7 +178,8 @@ def build_unit(unit_dir, out_path, mutate=None, neg_control=False):
         sf = SourceFile.get(path)
         kind = item["kind"]
         side = item.get("side", "")     # suffix for @fn paths when two sources define the same name
-        opts = {"rewrites": set(item.get("rewrites", rewrites)) | set(item.get("rewrites_add", [])),
+        opts = {"stub_only": item.get("stub_only", False),
+                "rewrites": set(item.get("rewrites", rewrites)) | set(item.get("rewrites_add", [])),
                 "r4_statements": item.get("r4_statements", ()),
                 "r10_only": item.get("r10_only")}
         if kind in ("fn", "struct", "enum", "trait", "type", "const", "static"):
@@ -205,7 +206,7 @@ def build_unit(unit_dir, out_path, mutate=None, neg_control=False):
                 raise Undecided("%s: no impl %s%s in %s" % (uid, (trait + " for ") if trait else "", ty, shown))
             wanted = list(item["names"])
             for blk in blocks:
-                ms = [mth for mth in sf.methods(blk) if mth.kind == "fn" and mth.name in wanted]
+                ms = [mth for mth in sf.methods(blk) if mth.kind in ("fn", "const", "type") and mth.name in wanted]
                 if not ms:
                     continue
                 hdr = Piece("impl %s header" % ty, ("impl %s for %s" % (trait, ty) if trait else "impl " + ty) + side, shown, path, blk.start, blk.body_open + 1,
@@ -217,9 +218,9 @@ def build_unit(unit_dir, out_path, mutate=None, neg_control=False):
                     wanted.remove(mth.name) if mth.name in wanted else None
                     fnpath = ("<%s as %s>::%s" % (ty, trait, mth.name)) if trait else "%s::%s" % (ty, mth.name)
                     p = Piece("method " + fnpath, fnpath + side, shown, path, mth.start, mth.end, sf.src[mth.start:mth.end])
-                    p.kind = "fn"
+                    p.kind = "fn" if mth.kind == "fn" else "assoc"
                     p.opts = opts
-                    p.is_fn = True
+                    p.is_fn = mth.kind == "fn"
                     p.indent = "    "
                     p.src_line = sf.src.count("\n", 0, mth.start) + 1
                     pieces.append(p)
@@ -237,7 +238,19 @@ def build_unit(unit_dir, out_path, mutate=None, neg_control=False):
     clause_index = {}
     for p in pieces:
         text = p.orig
-        if mutate is not None and p.is_fn:
+        p.stub = False
+        if p.kind == "fn" and ((bodies is not None and p.fnpath not in bodies) or p.opts.get("stub_only")):
+            # contract-only stub: signature + header clauses, body dropped (trusted inside this part;
+            # the body is verified by the part that lists it)
+            try:
+                sh0 = FnShape(text)
+            except (AnchorLost, rl.ScanError, Unsupported) as e:
+                raise Undecided("%s: %s: %s" % (uid, p.label, e))
+            if sh0.has_body:
+                text = text[:sh0.header_end] + "{ unimplemented!() }"
+                p.stub = True
+                p.stub_of = p.orig
+        if mutate is not None and p.is_fn and not p.stub:
             text = mutate(p.fnpath, text)
             p.mutated = text != p.orig
         try:
@@ -254,11 +267,26 @@ def build_unit(unit_dir, out_path, mutate=None, neg_control=False):
                 sh = FnShape(t1)
             except (AnchorLost, rl.ScanError, Unsupported) as e:
                 raise Undecided("%s: %s: %s" % (uid, p.label, e))
-            p.has_body = sh.has_body
+            p.has_body = sh.has_body and not p.stub
             p.shape = sh
+        if p.stub:
+            used_specs.add(p.fnpath) if fs is not None else None
+            p.fnspec = fs
+            p.kind = "stub"
+            hdr_kinds = ("attr", "result", "requires", "ensures", "recommends")
+            sfs = copy.copy(fs) if fs is not None else None
+            from .splice import FnSpec as _FnSpec
+            if sfs is None:
+                sfs = _FnSpec(p.fnpath)
+            sfs.clauses = [c for c in sfs.clauses if c.kind in hdr_kinds and not (c.kind == "attr" and "exec_allows_no_decreases" in c.text)]
+            ext = Clause("attr", "_stub", [], "#[verifier::external_body]", {}, 0)
+            ext.full_id = None
+            sfs.clauses = [ext] + sfs.clauses
+            fs = sfs
         if fs is not None:
             used_specs.add(fs.path)
-            p.fnspec = fs
+            if not p.stub:
+                p.fnspec = fs
             if neg_control and p.kind == "fn" and p.has_body and (neg_control is True or p.fnpath in neg_control):
                 fs = copy.copy(fs)
                 neg = Clause("ensures", "_NEG", [], "false", {}, 0)
@@ -266,7 +294,7 @@ def build_unit(unit_dir, out_path, mutate=None, neg_control=False):
                 fs.clauses = list(fs.clauses) + [neg]
                 p.neg = neg
             try:
-                if p.kind in ("fn", "trait_fn"):
+                if p.kind in ("fn", "trait_fn", "stub"):
                     eds, _ = splice_fn(t1, fs)
                 else:
                     for c in fs.clauses:
@@ -323,7 +351,7 @@ def build_unit(unit_dir, out_path, mutate=None, neg_control=False):
                 p.label, p.srcspec, p.start, p.end, p.sha[:16])
         out.append(banner)
         pos += len(banner)
-        lead = p.indent if p.kind in ("fn", "trait_fn") and p.indent else ""
+        lead = p.indent if p.kind in ("fn", "trait_fn", "stub") and p.indent else ""
         out.append(lead)
         pos += len(lead)
         p.out_start = pos
